@@ -34,6 +34,13 @@ pub enum Form {
     RegexGroup,
     /// `from_regex("[ab]{m,n}")`
     RegexClass,
+    /// `start: e{m,n} "-" e{d}` with d = n-m: two repetitions of the same rule node in one grammar
+    /// (the builder memoises "at most" and "exactly" nodes per (element, count))
+    RulePairExact,
+    /// `start: e{d} "-" e{m,n}` (exact first)
+    RulePairExactFirst,
+    /// `start: e{m,n} "-" e{d,}`
+    RulePairAtLeast,
     /// JSON minItems/maxItems, no prefixItems
     JsonItems,
     /// JSON minItems/maxItems with two prefixItems
@@ -66,6 +73,9 @@ pub const FORMS: &[Form] = &[
     Form::RegexLit,
     Form::RegexGroup,
     Form::RegexClass,
+    Form::RulePairExact,
+    Form::RulePairExactFirst,
+    Form::RulePairAtLeast,
     Form::JsonItems,
     Form::JsonItemsPrefix,
     Form::JsonLenAscii,
@@ -144,6 +154,18 @@ pub fn grammar(c: &Case) -> Option<GrammarSpec> {
         Form::RuleMiddle if lark_ok => GrammarSpec::Lark(format!("start: \"<\" \"a\"{} \">\"\n", sfx)),
         Form::TermLit if lark_ok => GrammarSpec::Lark(format!("start: T\nT: \"a\"{}\n", sfx)),
         Form::TermClass if lark_ok => GrammarSpec::Lark(format!("start: T\nT: /[ab]/{} \"!\"\n", sfx)),
+        Form::RulePairExact | Form::RulePairExactFirst | Form::RulePairAtLeast => {
+            let (m, n) = match c.bound {
+                Bound::Range(m, n) if n > 0 => (m, n),
+                _ => return None,
+            };
+            let d = pair_d(m, n);
+            match c.form {
+                Form::RulePairExact => GrammarSpec::Lark(format!("start: e{{{},{}}} \"-\" e{{{}}}\ne: \"a\" | \"b\"\n", m, n, d)),
+                Form::RulePairExactFirst => GrammarSpec::Lark(format!("start: e{{{}}} \"-\" e{{{},{}}}\ne: \"a\" | \"b\"\n", d, m, n)),
+                _ => GrammarSpec::Lark(format!("start: e{{{},{}}} \"-\" e{{{},}}\ne: \"a\" | \"b\"\n", m, n, d)),
+            }
+        }
         Form::RegexLit => GrammarSpec::Lark(format!("start: /a{}/\n", sfx)),
         Form::RegexGroup => GrammarSpec::Lark(format!("start: /(ab){}c/\n", sfx)),
         Form::RegexClass => GrammarSpec::Regex(format!("[ab]{}", sfx)),
@@ -180,6 +202,66 @@ pub fn grammar(c: &Case) -> Option<GrammarSpec> {
     })
 }
 
+/// second count of the pair forms: n-m (at least 1)
+pub fn pair_d(m: u32, n: u32) -> u32 {
+    (n - m).max(1)
+}
+
+fn ab(k: usize) -> String {
+    (0..k).map(|i| if i % 2 == 0 { 'a' } else { 'b' }).collect()
+}
+
+/// pair forms: explicit (i, j) grid around the bounds
+fn run_pair(case: &Case, ctx: &mut Ctx) -> R {
+    let g = match grammar(case) {
+        Some(g) => g,
+        None => return Ok(()),
+    };
+    let (m, n) = match case.bound {
+        Bound::Range(m, n) => (m, n),
+        _ => return Ok(()),
+    };
+    let d = pair_d(m, n);
+    let v = byte_vocab();
+    let f = factory(&v);
+    let m0 = matcher(&f, &g);
+    let gtxt = g.text();
+    if let Some(e) = m0.get_error() {
+        if is_limit_error(&e) {
+            return Ok(());
+        }
+        return ctx.fail("C09/compile-error", || format!("grammar {} does not compile: {}", gtxt, short_err(&e)));
+    }
+    ctx.class(&format!("form:{:?}", case.form));
+    let eos = v.eos[0];
+    let mut js: Vec<u32> = vec![0, d.saturating_sub(1), d, d + 1, d + 5, 3, (d % 4), n, m];
+    js.sort();
+    js.dedup();
+    for i in 0..=(n + 2) {
+        for &j in &js {
+            let (first, second, want) = match case.form {
+                Form::RulePairExact => (i, j, m <= i && i <= n && j == d),
+                Form::RulePairAtLeast => (i, j, m <= i && i <= n && j >= d),
+                _ => (j, i, j == d && m <= i && i <= n),
+            };
+            let s = format!("{}-{}", ab(first as usize), ab(second as usize));
+            let mut toks: Vec<u32> = s.bytes().map(|b| b as u32).collect();
+            toks.push(eos);
+            let k = m0.clone().validate_tokens(&toks).unwrap_or(usize::MAX);
+            let got = k == toks.len();
+            ctx.eval(1);
+            if got != want {
+                let key = if got { "C09/count-outside-bounds-accepted" } else { "C09/count-inside-bounds-rejected" };
+                return ctx.fail(key, || format!("grammar {}: {:?} ({} and {} repetitions): accepted as complete={} expected={}", gtxt, s, first, second, got, want));
+            }
+        }
+    }
+    if n >= 12 || n - m >= 12 {
+        ctx.nontrivial(Fnv::new().str(&format!("{:?}", case)).finish());
+    }
+    Ok(())
+}
+
 /// the string with exactly k repetitions
 pub fn sample(form: Form, k: u32) -> Vec<u8> {
     let k = k as usize;
@@ -190,6 +272,7 @@ pub fn sample(form: Form, k: u32) -> Vec<u8> {
         Form::RuleNt | Form::RegexClass => (0..k).map(|i| if i % 2 == 0 { b'a' } else { b'b' }).collect(),
         Form::RuleGroupSep => rep("a,"),
         Form::RuleMiddle => format!("<{}>", "a".repeat(k)).into_bytes(),
+        Form::RulePairExact | Form::RulePairExactFirst | Form::RulePairAtLeast => vec![],
         Form::TermClass => {
             let mut v: Vec<u8> = (0..k).map(|i| if i % 3 == 0 { b'b' } else { b'a' }).collect();
             v.push(b'!');
@@ -245,6 +328,9 @@ fn open_prefix(form: Form, k: u32) -> Vec<u8> {
 }
 
 pub fn run_case(case: &Case, ctx: &mut Ctx) -> R {
+    if matches!(case.form, Form::RulePairExact | Form::RulePairExactFirst | Form::RulePairAtLeast) {
+        return run_pair(case, ctx);
+    }
     let g = match grammar(case) {
         Some(g) => g,
         None => return Ok(()),
@@ -341,15 +427,19 @@ pub fn run_case(case: &Case, ctx: &mut Ctx) -> R {
 pub fn grid(nmax: u32, jmax: u32) -> Vec<Case> {
     let mut v = vec![];
     for &form in FORMS {
-        let lim = if is_json(form) { jmax } else { nmax };
+        let pair = matches!(form, Form::RulePairExact | Form::RulePairExactFirst | Form::RulePairAtLeast);
+        let lim = if is_json(form) { jmax } else if pair { jmax.min(32) } else { nmax };
         for n in 0..=lim {
             for m in 0..=n {
                 v.push(Case { form, bound: Bound::Range(m, n) });
             }
+            if pair {
+                continue;
+            }
             v.push(Case { form, bound: Bound::AtLeast(n) });
             v.push(Case { form, bound: Bound::Exact(n) });
         }
-        if !is_json(form) {
+        if !is_json(form) && !pair {
             v.push(Case { form, bound: Bound::Star });
             v.push(Case { form, bound: Bound::Plus });
             v.push(Case { form, bound: Bound::Opt });
